@@ -17,8 +17,8 @@ class RequestStreamRequester(StreamHandler, DefaultPublisherSubscription, Reques
         pass
 
     def subscribe(self, subscriber: Subscriber):
-        super().subscribe(subscriber)
         self._send_stream_request(self.payload)
+        super().subscribe(subscriber)
 
     def cancel(self):
         self.send_cancel()
